@@ -363,8 +363,9 @@ def composed(draw):
     """Main = a few wrapped calls of the same partials; partial bodies are generated."""
     r = core.rng(draw)
     pieces = []
+    named = r.choice(POOL)  # a partial named like a variable: 'with/for' without an alias binds that name, a plain call does not
     for _ in range(r.randint(2, 4)):
-        partial = r.choice(["p", "p", "q"])
+        partial = r.choice(["p", "p", "q", named])
         pieces.append(wrapper(r, call_of(r, partial)))
         if r.random() < 0.3:
             pieces.append("{{ " + r.choice(POOL) + " }}")
@@ -374,7 +375,8 @@ def composed(draw):
     body_q = gg.to_source(gg.Gen(r, profile([], "render")).template())
     if r.random() < 0.5:
         body_q += "{% " + r.choice(["include", "render"]) + " 'p' %}"
-    return {"sources": {"main": "".join(pieces), "p": body_p, "q": body_q}, "async": r.random() < 0.25}
+    body_n = "{{ " + named + r.choice(["", ".title", "[0]"]) + " }}" + gg.to_source(gg.Gen(r, profile([], "render")).template())
+    return {"sources": {"main": "".join(pieces), "p": body_p, "q": body_q, named: body_n}, "async": r.random() < 0.25}
 
 
 @st.composite
@@ -421,7 +423,7 @@ def finish_kwargs(ctx: core.Ctx, tier: str) -> dict:
     return {
         "rule": (
             "Templates whose main body calls the same generated partials 2-4 times (include / render, plain, with keyword "
-            "arguments, with/for ... as name) from under different scopes (for, tablerow, with, capture, macro, for-else, "
+            "arguments, with/for ... as name or without alias; one partial is named like a variable) from under different scopes (for, tablerow, with, capture, macro, for-else, "
             "case, after an assign), fully generated templates with two generated partials, and one- or two-node templates "
             "(so that each filter, tag and path occurs once); rendered (sync, 25% "
             "async) in lax mode with every pool name present in the render arguments. The render is traced from the "
